@@ -69,8 +69,14 @@ func (gw *eventBasedGateway) run(ctx context.Context, sender tracing.ISenderHand
 					}
 				}
 
+				// terminationChannels is read by every alternative's token (terminate) and
+				// replaced by the winner's: both under this lock (the unsynchronised
+				// replacement was a data race with the losers' reads)
+				var channelsLock sync.RWMutex
 				action := flowAction{
 					terminate: func(sequenceFlowId *schema.IdRef) chan bool {
+						channelsLock.RLock()
+						defer channelsLock.RUnlock()
 						return terminationChannels[*sequenceFlowId]
 					},
 					sequenceFlows: sequences,
@@ -78,13 +84,16 @@ func (gw *eventBasedGateway) run(ctx context.Context, sender tracing.ISenderHand
 						// only the first one is to flow
 						if atomic.CompareAndSwapInt32(&first, 0, 1) {
 							gw.tracer.Send(DeterminationMadeTrace{Node: gw.element})
-							for terminationCandidateId, ch := range terminationChannels {
+							channelsLock.Lock()
+							channels := terminationChannels
+							terminationChannels = make(map[schema.IdRef]chan bool)
+							channelsLock.Unlock()
+							for terminationCandidateId, ch := range channels {
 								if sequenceFlowId != nil && terminationCandidateId != *sequenceFlowId {
 									ch <- true
 								}
 								close(ch)
 							}
-							terminationChannels = make(map[schema.IdRef]chan bool)
 							return action
 						} else {
 							return completeAction{}
